@@ -15,10 +15,10 @@ static void one(const uint8_t *ad, size_t adlen, const uint8_t *m, size_t mlen, 
     /* an empty associated data string is given once as NULL and once as a valid pointer with length 0 */
     for (int nv = 0; nv < (adlen ? 1 : 2); nv++) {
     const uint8_t *adp = adlen ? ad : (nv ? ad : 0);
-    for (int entry = 0; entry < 9; entry++) {
+    for (int entry = 0; entry < 11; entry++) {
         uint8_t *c = hx_buf(clen);
         size_t got = (size_t)-1;
-        static const char *en[] = {"oneshot", "incremental", "masked", "cpp", "cpp-masked", "cpp-key-constructor", "cpp-masked-key-constructor", "cpp-re-key", "cpp-masked-re-key"};
+        static const char *en[] = {"oneshot", "incremental", "masked", "cpp", "cpp-masked", "cpp-key-constructor", "cpp-masked-key-constructor", "cpp-re-key", "cpp-masked-re-key", "cpp-byte_array", "cpp-masked-byte_array"};
         if (entry == 0) {
             api_aead_enc[alg](c, &got, m, mlen, adp, adlen, nonce, key);
         } else if (entry == 1) {
@@ -52,6 +52,11 @@ static void one(const uint8_t *ad, size_t adlen, const uint8_t *m, size_t mlen, 
             for (size_t q = 0; q < (adlen + mlen) % 3; q++) api_masked_key_randomize(alg, &mk);   /* the key object after 0-2 re-randomisations: same key, other shares */
             api_masked_enc[alg](c, &got, m, mlen, adp, adlen, nonce, &mk);
             api_masked_key_free(alg, &mk);
+        } else if (entry >= 9) {
+            /* byte_array overloads; the output array arrives empty, shorter, exactly as long as, or longer than the result */
+            size_t pre[4] = {0, 5, clen, clen + 23};
+            int r = cpp_encrypt_ba(entry - 9, alg, key, nonce, c, m, mlen, adp, adlen, nv ? 2 : 1, pre[(adlen + mlen + (size_t)nv) % 4]);
+            got = (size_t)r;
         } else {
             int r = entry < 5 ? cpp_encrypt(entry == 3 ? 0 : 1, alg, key, nonce, c, m, mlen, adp, adlen) : entry < 7 ? cpp_encrypt_ctor(entry == 5 ? 0 : 1, alg, key, nonce, c, m, mlen, adp, adlen) : cpp_encrypt_rekey(entry == 7 ? 0 : 1, alg, key, nonce, c, m, mlen, adp, adlen);
             got = (size_t)r;
